@@ -3,7 +3,7 @@ import re
 import stat
 import typing
 from email.header import Header
-from mailbox import Maildir, Message, mbox
+from mailbox import Maildir, Message, NoSuchMailboxError, mbox
 
 from pygopherd import GopherExceptions, gopherentry
 from pygopherd.handlers.base import VFS_Real
@@ -104,7 +104,12 @@ class MessageHandler(Virtual):
         if hasattr(self, "message"):
             return self.message
 
-        mailbox = iter(self.openmailbox())
+        try:
+            mailbox = iter(self.openmailbox())
+        except NoSuchMailboxError:
+            raise GopherExceptions.FileNotFound(
+                self.selector, "no such mailbox", self.protocol
+            )
         message = None
         for _ in range(self.message_num):
             message = next(mailbox, None)
